@@ -161,7 +161,7 @@ class CellBase(abc.ABC):
             ### aspect ratio: one number for the whole cell (not per side)
             edge_lengths = self.get_edge_lengths()
             side_max = max(edge_lengths)
-            side_min = min(edge_lengths) + VSMALL
+            side_min = max(min(edge_lengths), VSMALL)
             aspect_factor = np.log10(side_max / side_min)
 
             quality += np.sum(q_scale(3, 2.5, 3, aspect_factor))
@@ -231,18 +231,18 @@ class HexCell(CellBase):
 
         side_normals = np.cross(side_1, side_2)
 
-        nnorms = np.linalg.norm(side_normals, axis=1) + VSMALL
+        nnorms = np.maximum(np.linalg.norm(side_normals, axis=1), VSMALL)
         return side_normals / nnorms[:, np.newaxis]
 
     def get_inner_angles(self, i: int):
         side_points = self.get_side_points(i)
 
         sides_1 = np.roll(side_points, -1, axis=0) - side_points
-        side_1_norms = np.linalg.norm(sides_1, axis=1) + VSMALL
+        side_1_norms = np.maximum(np.linalg.norm(sides_1, axis=1), VSMALL)
         sides_1 = sides_1 / side_1_norms[:, np.newaxis]
 
         sides_2 = np.roll(side_points, 1, axis=0) - side_points
-        side_2_norms = np.linalg.norm(sides_2, axis=1) + VSMALL
+        side_2_norms = np.maximum(np.linalg.norm(sides_2, axis=1), VSMALL)
         sides_2 = sides_2 / side_2_norms[:, np.newaxis]
 
         angles = np.sum(sides_1 * sides_2, axis=1)
